@@ -455,6 +455,50 @@ fn zone(v: i64, t: i64) -> String {
 fn gen_common(thorough: bool, rng: &mut Rng) -> Result<(), String> {
     let pool = Pool::load()?;
     let names: Vec<String> = pool.defs.iter().map(|(n, _)| n.clone()).collect();
+    // a cheating holder with two credentials holding x and -x for an attribute the VERIFIER declares common: the model
+    // prover masks it with t in one sub-proof and -t in the other, so the responses are each other's negatives (same
+    // magnitude). Control: equal values, equal masks (accepted although the prover did not declare the attribute).
+    for k in 0..(if thorough { 8 } else { 2 }) {
+        for forged in [false, true] {
+            let link = dec_of_hex(&rng.hex_bits(255));
+            let x = 1 + rng.below(1_000_000) as i64;
+            let t = dec_of_hex(&rng.hex_bits(592));
+            let draw = |rng: &mut Rng, bits: usize| dec_of_hex(&rng.hex_bits(bits));
+            let seed = draw(rng, 592);
+            let (mut creds, mut defs, mut reqs) = (vec![], vec![], vec![]);
+            for ci in 0..2 {
+                let name = rng.pick(&names).clone();
+                let cd = pool.get(&name);
+                let mut h = hold(&pool, &name, &link, rng)?;
+                let age = if forged && ci == 1 { -x } else { x };
+                h.known.insert("age".into(), age.to_string());
+                h.cred = issue(cd, &h.known, &h.hidden, "p", None)?;
+                let req = ReqSpec { revealed: h.known.keys().filter(|a| *a != "age").take(ci + 1).cloned().collect(), predicates: vec![] };
+                let mut vals: BTreeMap<String, String> = h.known.clone();
+                for (a, v) in &h.hidden { vals.insert(a.clone(), v.clone()); }
+                let mut m_tilde = BTreeMap::new();
+                for a in cd.attrs.iter().chain(cd.non_attrs.iter()) {
+                    if !req.revealed.contains(a) && a != "master_secret" {
+                        m_tilde.insert(a.clone(), if a == "age" { if forged && ci == 1 { format!("-{}", t) } else { t.clone() } } else { draw(rng, 592) });
+                    }
+                }
+                creds.push(json!({"pk": jv(&cd.pk)["p_key"], "sig": jv(&h.cred.sig)["p_credential"], "values": vals, "schema": cd.attrs,
+                    "non_schema": cd.non_attrs, "req": req.to_json(),
+                    "tape": {"r": draw(rng, 2128), "e_tilde": draw(rng, 456), "v_tilde": draw(rng, 3060), "m_tilde": m_tilde,
+                             "m2_tilde": draw(rng, 2432), "preds": Vec::<Value>::new()}}));
+                defs.push(name.clone());
+                reqs.push(req.to_json());
+            }
+            let nonce = new_nonce().map_err(|e| e.to_string())?.to_dec().unwrap_or_default();
+            let common: BTreeMap<String, String> = [("master_secret".to_string(), seed)].into_iter().collect();
+            emit(&json!({"id": format!("common/negated/{}/{}", k, if forged { "forged" } else { "control" }), "op": "prove_multi",
+                "in": {"backend": backend_str(), "mode": mode_str(), "common": common, "nonce": nonce, "creds": creds},
+                "impl": {"exec": {"op": "verify_proof_multi", "in": {"defs": defs, "reqs": reqs, "common": ["master_secret", "age"], "nonce": nonce}},
+                         "expect_accept": !forged, "oracle": "common_attribute_enforced",
+                         "what": format!("two credentials holding age = {} and age = {}, 'age' declared common by the verifier, responses m and -m", x, -x)},
+                "class": {"kind": if forged { "negated-common-forgery" } else { "negated-common-control" }, "ncred": 2}}));
+        }
+    }
     // one verifier object judging several proofs in a row (`verify` takes `&mut self`): its verdict on a proof must not
     // depend on the proofs it has seen before; 1..3 credentials, link secret declared common
     for k in 0..(if thorough { 12 } else { 3 }) {
